@@ -273,3 +273,20 @@ _ROUND3 = {
 for _k, _v in _ROUND3.items():
     if _k in TEXTS and _v.strip() not in TEXTS[_k]["text"]:
         TEXTS[_k]["text"] = TEXTS[_k]["text"].rstrip() + _v
+
+# ---- clauses added with the fourth seeding round (anchors no earlier seed had touched) and finding F30 ---------------
+_ROUND4 = {
+ "C01": " Round 4: a failing delegate of a union bucket is never read as \"does not have the path\" (DELEGATE-ERR: its error is inspected or returned); the target state given to a re-targeted module does not depend on its previous state (RETARGET-FRESH).",
+ "C02": " Round 4: the annotation comparator reads every accessor the identity key reads (ORDER-TOTAL); every running arg-max updates its bound together with the selection (ARGMAX, on SSA, module-wide).",
+ "C03": " Round 4: no comparison helper returns \"nothing\" merely because the current side is empty (EMPTY-CURRENT); the annotation filter drops only under a condition reading the configuration (SUPPRESSION-CONFIGURED); pair adapters hand on every existing pair (LABEL-ADAPTER/unfiltered); struct types with a dedicated comparison function are compared only through it (EQUALITY-HELPER).",
+ "C04": " Round 4: ADAPTERS-UNFILTERED (FILE rules see every file the PACKAGE rules see) and EQUALITY-HELPER (defaults are compared through defaultsEqual, which knows NaN and float widening).",
+ "C05": " Round 4: a per-element boolean is accumulated or acted on inside its loop, never overwritten so that the last element decides (R-FLAGLOOP, self-tested); every setter of the source model has a call site (SETTERS-CALLED); a path-set search that may return without cleaning up gets a fresh set on every iteration (PATH-SET-FRESH).",
+ "C06": " Round 4: a deprecated category has exactly the members of its replacements in every rule set listing both (DEPRECATED-CATEGORY); a literal transferring same-named fields from another struct names every shared field (TRANSFER-COMPLETE); use, except, ignore and ignore_only are stored independently of each other and every ignore_only key is kept (SELECTORS-INDEPENDENT).",
+ "C07": " Round 4: comment text is classified by the tokens // and /* only (COMMENT-TOKENS); a blank line prompted by the input's own empty lines is never the first output (BLANK-AFTER-OUTPUT; F30, fixed).",
+ "C08": " Round 4: sort comparators of the digest packages compare accessor results, not transformations of them (BYTE-ORDER); hashed dependency digests are a total mapping of the list received (DEPS-UNFILTERED); a value computed inside sync.Once.Do is kept where later calls see it (ONCE-RESULT-LOST, self-tested).",
+ "C09": " Round 4: the lock layer itself (FILELOCK: Unlocker only when held, Lock exclusive / RLock shared, one lock file per key for readers and writers, locker root from the cache directory, lock files never removed); the joined error of thread.Parallelize is returned whole (PARALLEL-ERR-WHOLE); ONCE-RESULT-LOST.",
+ "C10": " Round 4: a list filled and consumed within one loop iteration does not live across iterations (LOOP-ACCUM, self-tested); a not-found for some other path is classified before it can be returned as the answer about the caller's path (FOREIGN-NOT-FOUND); every path through a builder's Add method records the module or an error (ADD-RECORDS); ARGMAX on SSA replaces the name-anchored ARGMAX-LOOP; DELEGATE-ERR.",
+}
+for _k, _v in _ROUND4.items():
+    if _k in TEXTS and _v.strip() not in TEXTS[_k]["text"]:
+        TEXTS[_k]["text"] = TEXTS[_k]["text"].rstrip() + _v
